@@ -8,3 +8,7 @@ def run(R):
         "every panic-capable, wrapping or truncating construct reachable from the parsing entry points is "
         "mechanically discharged, discharged by a tabled reason (optionally with a re-proved guard), a known finding, or reported")
     R.assume("recursion depth of the expression parser / converter is not bounded by this analysis (stack exhaustion on deeply nested input is outside the technique)")
+
+
+def run_thorough(R):
+    rules_sites.run_thorough_release(R, "C14.sites", "PARSE")
